@@ -651,6 +651,8 @@ def _kind_truth(c, K):
         return all(rs) if c.a[0] == "and" else any(rs)
     if c.op == "cmp":
         def kind_const(z):
+            if z.op == "ext" and z.a[0].split(".")[-1] in PARAM_KINDS:
+                return z.a[0].split(".")[-1]  # inspect.Parameter.VAR_KEYWORD
             return z.a[1] if z.op == "attr" and z.a[1] in PARAM_KINDS else None
 
         def is_kind(z):
@@ -693,6 +695,8 @@ def _filter_by_kind(kwt, kwa, fn_t, s):
         return None
     else:
         return None
+    if A.op == "call" and call_name(A) == "builtins.any" and D.op == "comp" and D.a[0] == "dict" and len(D.a[2]) == 1:
+        return _filter_by_kind_comprehensions(A, D, kwa, fn_t)
     if not (A.op == "loop" and D.op == "comp" and D.a[0] == "dict" and len(D.a[2]) == 1):
         return None
     lid = A.a[0]
@@ -737,6 +741,51 @@ def _filter_by_kind(kwt, kwa, fn_t, s):
             names.add(K)
         elif not (leaf.op == "loopvar" and leaf.a[0] == lid):
             return None
+    return acc, names, from_items, extra
+
+
+def _is_signature_params(it, fn_t):
+    """inspect.signature(callee).parameters.values() / .items() (a list() around it is already stripped)"""
+    if not (it.op == "call" and call_name(it) in (".items", ".values") and it.a[1] and it.a[1][0].op == "attr" and it.a[1][0].a[1] == "parameters"):
+        return False
+    sig = it.a[1][0].a[0]
+    return sig.op == "call" and call_name(sig) == "inspect.signature" and len(sig.a[1]) == 1 and sig.a[1][0] is fn_t
+
+
+def _filter_by_kind_comprehensions(A, D, kwa, fn_t):
+    """The same decision when ACCEPTS is  any(<test on p.kind> for p in parameters)  and NAMES is a comprehension
+    {p.name for p in parameters if <test on p.kind>}."""
+    g = A.a[1][0] if A.a[1] else None
+    if g is None or g.op != "comp" or len(g.a[2]) != 1 or not _is_signature_params(g.a[2][0], fn_t):
+        return None
+    acc = set()
+    for K in PARAM_KINDS:
+        ts = [_kind_truth(c, K) for c in [g.a[1]] + list(g.a[3])]
+        if any(t is None for t in ts):
+            return None
+        if all(ts):
+            acc.add(K)
+    elt = D.a[1]
+    conds = list(D.a[3])
+    from_items = elt.op == "tuple" and len(elt.a) == 2 and elt.a[0].op == "sub" and elt.a[1].op == "sub" and elt.a[0].a[0] is elt.a[1].a[0] and tm.is_const(elt.a[0].a[1], 0) and tm.is_const(elt.a[1].a[1], 1) and D.a[2][0].op == "call" and call_name(D.a[2][0]) == ".items" and D.a[2][0].a[1][0] is kwa
+    member = [c2 for c2 in conds if c2.op == "cmp" and c2.a[0] == "in" and elt.op == "tuple" and c2.a[1] is elt.a[0]]
+    extra = [tm.show(c2, 3) for c2 in conds if c2 not in member]
+    if len(member) != 1:
+        return None
+    N = member[0].a[2]
+    if not (N.op == "comp" and N.a[0] in ("set", "list", "gen") and len(N.a[2]) == 1 and _is_signature_params(N.a[2][0], fn_t)):
+        return None
+    v = N.a[1]
+    own = (v.op == "attr" and v.a[1] == "name" and v.a[0].op == "iter") or (v.op == "sub" and tm.is_const(v.a[1], 0) and v.a[0].op == "iter")
+    if not own:
+        return None
+    names = set()
+    for K in PARAM_KINDS:
+        ts = [_kind_truth(c, K) for c in N.a[3]]
+        if any(t is None for t in ts):
+            return None
+        if all(ts):
+            names.add(K)
     return acc, names, from_items, extra
 
 
